@@ -154,7 +154,18 @@ func reencmAllowed(head string, extra string, ops []op) bool {
 	return false
 }
 
-// maybeReencm derives a `reencm` case from a single-encode case whose frame was decoded (30%; 8% of the big ones).
+// reencmShare: percentage of the single-encode cases that get a reencm sibling (modified frames more often, big ones rarely)
+func reencmShare(size, nops int) int {
+	switch {
+	case size > 20000:
+		return 8
+	case nops > 0:
+		return 60
+	}
+	return 15
+}
+
+// maybeReencm derives a `reencm` case from a single-encode case whose frame was decoded (see reencmShare).
 func maybeReencm(c *hx.Ctx, proto api.XProtocol, head, extra string, input []byte, ops []op, dec string) {
 	if !strings.HasPrefix(dec, "frame:") || !reencmAllowed(head, extra, ops) {
 		return
@@ -167,7 +178,7 @@ func maybeReencm(c *hx.Ctx, proto api.XProtocol, head, extra string, input []byt
 	for _, o := range ops {
 		size += len(o.k) + len(o.v)
 	}
-	if size > 200000 || !r.Chance(map[bool]int{false: 30, true: 8}[size > 20000]) {
+	if size > 200000 || !r.Chance(reencmShare(size, len(ops))) {
 		return
 	}
 	n := 2 + r.Intn(3)
